@@ -6,7 +6,8 @@ limits must end the same way (same value / error / violation) in both; (B) adver
 and huge sources, native never-true predicates, huge counts, numeric builtins, searching builtins) under
 finite search / call / size / time limits, each in a watched child: a hang (or a panic) is the failing
 observation, the wall-clock time is recorded; (C) the order of the checks at the beginning of a user call
-(error argument, call limit, time limit) against the gate model."""
+(error argument, call limit, time limit) against the gate model; (E) checklib/c10_adv.py: every library function with numeric
+parameters (from the signature hook) with boundary values in every position under finite limits: it must answer."""
 from .common import *
 from . import c16
 sys.set_int_max_str_digits(0)
@@ -327,6 +328,10 @@ def run(chk):
                 chk.violation(f"tie:numeric:{fn}", f"C14 model on `{mline}` answers {mo[:120]}, implementation and oracle {want[:120]}",
                               {"model": mline, "model_out": mo, "impl": o}, no_input=True)
     phases["D"] = round(time.time() - chk.t0, 1)
+    # ------------------------------------------------------------------ (E) adversarial arguments for every numeric library function
+    from . import c10_adv
+    c10_adv.run_sweep(chk)
+    phases["E"] = round(time.time() - chk.t0, 1)
     # ------------------------------------------------------------------ (C) the gate at the beginning of a user call
     gate = [
         # (program, limits, model request, what the model's answer means for the program)
@@ -392,6 +397,8 @@ def replay(path):
     bad = any(v in ("HANG", "PANIC") or v.startswith("COMPILE") for v in vals) or len(set(vals)) > 1
     if r.get("expected") is not None:
         bad = bad or any(v != r["expected"] for v in vals)
+    if r.get("expect_answer"):
+        bad = any(v in ("HANG",) or v.startswith("panic abort") for v in vals)
     if mo is not None and r.get("expected") is None:
         bad = bad or any(v != c16.parse_model(mo) for v in vals)
     print("VIOLATION property=C10 replay=%s" % path if bad else "no longer failing")
